@@ -11,6 +11,13 @@ def entry(name, pro, outer, inner_idx):
             '  vp_run_pending_unit();\n  vp_pre_enabled = 0;\n  c18_epilogue();\n}\n' % (name, pro, inner_idx, outer))
 
 
+def entry_n(name, pro, outer, inner_idxs, n):
+    s = 'void %s(void) {\n  vp_spurious_cfg = 0;\n  vp_init();\n  %s();\n  vp2_nunits = %d;\n' % (name, pro, len(inner_idxs))
+    for u, i in enumerate(inner_idxs):
+        s += '  vp2_sel[%d] = %d; vp2_u_ctx[%d] = 0; vp2_u_k[%d] = -1;\n' % (u, i, u, u)
+    return s + '  vp2_enabled = 1;\n  %s();\n  vp2_run_rest();\n  vp2_enabled = 0;\n  c18_epilogue_n(%d);\n}\n' % (outer, n)
+
+
 def plan(tier, seed, ctx):
     modules = {'c18': [('harness/C18_seq.cpp', 'fiber20')] + SRC}
     units = []
@@ -23,32 +30,46 @@ def plan(tier, seed, ctx):
     scen += [('c18_shsh_wake', 'c18_shex_pro', 'c18_shsh_B', 'c18_shex_A_unlock', 'shsh'),          # shared waiter behind an exclusive holder
              ('c18_exsh_wake', 'c18_shared_pro', 'c18_shex_B', 'c18_shared_A_unlock', 'exsh'),      # exclusive waiter behind a shared holder
              ('c18_exsh_barge', 'c18_shared_pro', 'c18_shex_B', 'c18_shared_A_unlock_C_try', 'exsh')]
+    lockers = ['c18_%s_L%d' % (t, i) for t in ('mutex', 'rec', 'shex', 'shsh') for i in (2, 3, 4)]
+    units += lockers
     fns = set(units + ['c18_epilogue', 'c18_try_contracts', 'c18_shsh_B', 'c18_shared_pro'] + [s[1] for s in scen] + [s[2] for s in scen])
-    head = core.decls(sorted(fns)) + core.unit_selector(units)
+    head = core.decls(sorted(fns)) + core.unit_selector(units) + 'void c18_epilogue_n(uint32_t);\nint vp2_sel[4];\nvoid vp_unit_run(int u) {\n' + \
+        ''.join('  if (vp2_sel[u] == %d) { %s(); return; }\n' % (i + 1, f) for i, f in enumerate(units)) + '}\n'
     queries = [{'name': 'c18_try_contracts_q', 'module': 'c18', 'main': head + 'void c18_try_contracts_q(void) { vp_init(); c18_try_contracts(); }\n', 'unwind': 4, 'timeout': 200,
                 'sample': 'try_lock / try_lock_shared contracts of mutex, recursive_mutex, shared_mutex (no blocking)'}]
     for (nm, pro, outer, inner, fam) in scen:
         queries.append({'name': nm, 'module': 'c18', 'main': entry(nm, pro, outer, units.index(inner) + 1), 'unwind': 4, 'timeout': 200, 'witness': 'any', 'family': 'c18_' + fam,
                         'sample': 'fiber A holds (%s); fiber B blocks in %s; while B is parked the other fibers run %s; then B continues' % (pro, outer, inner)})
+    # several parked lockers: holder A (prologue), 2 or 3 lockers park one inside the other, then A releases; NotifyOne picks any parked fiber
+    multi = []
+    for t in ('mutex', 'rec'):
+        multi += [(t, 'c18_%s_pro' % t, ['c18_%s_L2' % t, 'c18_%s_L3' % t], 'c18_%s_A_unlock' % t), (t, 'c18_%s_pro' % t, ['c18_%s_L2' % t, 'c18_%s_L3' % t, 'c18_%s_L4' % t], 'c18_%s_A_unlock' % t)]
+    for (pro, rel, hn) in (('c18_shex_pro', 'c18_shex_A_unlock', 'hx'), ('c18_shared_pro', 'c18_shared_A_unlock', 'hs')):
+        for modes in (('shex', 'shex'), ('shex', 'shsh'), ('shsh', 'shex'), ('shsh', 'shsh'), ('shex', 'shex', 'shex'), ('shex', 'shsh', 'shex'), ('shsh', 'shex', 'shsh'), ('shsh', 'shsh', 'shex'), ('shex', 'shsh', 'shsh')):
+            multi.append(('shared_' + hn, pro, ['c18_%s_L%d' % (m, i + 2) for i, m in enumerate(modes)], rel))
+    for (t, pro, ls, rel) in multi:
+        nm = 'c18_multi_%s_%s' % (t, '_'.join(l.split('_')[1][-2:] + l[-1] for l in ls))
+        queries.append({'name': nm, 'module': 'c18', 'main': entry_n(nm, pro, ls[0], [units.index(x) + 1 for x in ls[1:] + [rel]], len(ls)), 'unwind': 6, 'timeout': 300, 'witness': 'any',
+                        'family': 'c18_multi_' + t, 'sample': 'fiber A holds (%s); fibers %s call lock()/lock_shared() one after the other and park; A releases (%s); NotifyOne wakes any of them' % (pro, ls, rel)})
     meta = {
         'rule': 'One query per lock type x scenario {the holder releases; the holder releases and a third fiber barges in with try_lock}: ghost holder sets updated on successful return must never '
                 'show two exclusive holders or exclusive+shared; a parked locker that nobody made runnable although the lock is available is a lost wake-up.',
-        'bounds': {'fibers': 3, 'blocking_fibers': 1, 'lock_types': ['mutex', 'recursive_mutex', 'shared_mutex (exclusive and shared)']},
+        'bounds': {'fibers': 4, 'blocking_fibers': 3, 'lock_types': ['mutex', 'recursive_mutex', 'shared_mutex (exclusive and shared)']},
         'stubs': ['FiberQueue::{Wait(NoTimeoutTag), NotifyOne, NotifyAll, Empty} and Scheduler::GetId are a MODEL of the fiber scheduler (harness/C18_seq.cpp): a parked fiber yields to the other '
                   'fibers of the scenario; notify marks it runnable', 'GetRandNumber = any value below max'],
         'assumptions': ['timed mutexes, condition_variable, thread::join, thread-local proxies and the real queue.cpp/scheduler.cpp are NOT covered by this check',
-                        'only one fiber blocks per scenario; injected yields inside the lock functions are not modelled (cooperative fibers switch only at Wait)'],
+                        'up to three fibers park at once; a wake-up order is explored when it can be expressed by nesting (the innermost parked fiber resumes first) -- the other orders are covered by the scenario with the arrival order mirrored, since NotifyOne picks a random parked fiber regardless of arrival order; injected yields inside the lock functions are not modelled (cooperative fibers switch only at Wait)'],
         'functions_filter': r'(Mutex|c18_)',
         'explanation': 'Real code: src/fault/fiber/mutex.cpp, recursive_mutex.cpp, shared_mutex.cpp (compiled with YACLIB_FAULT=2).',
     }
-    return {'modules': modules, 'queries': queries, 'meta': meta, 'module_opts': {'c18': {'nthreads': 2, 'heap': 256, 'stack': 1024, 'preempt': True}}}
+    return {'modules': modules, 'queries': queries, 'meta': meta, 'module_opts': {'c18': {'nthreads': 4, 'heap': 256, 'stack': 768, 'preempt': True}}}
 
 
 MANIFEST = {
     'level_text': 'For the real fiber mutex, recursive_mutex and shared_mutex code and a model of the cooperative scheduler the solver decides, for each lock type, that a blocked locker is woken '
                   'when the holder releases, that a woken locker never ends up holding the lock together with a fiber that barged in meanwhile (exclusive/exclusive, exclusive/shared), and the '
                   'try_lock / try_lock_shared success and failure contracts incl. recursive re-entry.',
-    'level_note': '3 fibers, one blocking; scheduler and FiberQueue are modelled, not encoded; timed locks, condition variables, join and TLS are not covered. Trusted: clang -O1 IR, ir2c, rt, cbmc.',
+    'level_note': 'up to 4 fibers, up to 3 parked at once; scheduler and FiberQueue are modelled, not encoded; timed locks, condition variables, join and TLS are not covered. Trusted: clang -O1 IR, ir2c, rt, cbmc.',
     'technique': 'bounded model checking of the real lock code against a scheduler model (sequentialised cooperative fibers)',
     'design_ref': 'DESIGN.md 4 C18',
 }
